@@ -198,6 +198,22 @@ L:
 	i++
 	if i < 2 { goto L }
 }`,
+	// determinism under a depth bound (unsafe-max-depth): the same node is reached through a short and a long route
+	"det.depthDiamond": `func short(s string) string { return s }
+func long1(s string) string { return s }
+func long2(s string) string { return long1(s) }
+func long3(s string) string { return long2(s) }
+func tail2(s string) { rt.Sink1(s) }
+func tail1(s string) { tail2(s) }
+func tail(s string) { tail1(s) }
+func main() { x := rt.Source1(); a := short(x); b := long3(x); v := a; if rt.Cond() { v = b }; tail(v); y := rt.Source3(); c := short(y); d := long3(y); w := c; if rt.Cond() { w = d }; tail(w) }`,
+	// recursive types whose recursion goes through an embedded field / a pointer type naming itself
+	"rec.embeddedSelf": `type Frame struct { *Frame; name string }
+func top(f *Frame) string { for f.Frame != nil { f = f.Frame }; return f.name }
+func main() { f := &Frame{name: rt.Source1()}; g := &Frame{Frame: f}; rt.Sink1(top(g)) }`,
+	"rec.pointerSelf": `type P *P
+func idp(p P) P { return p }
+func main() { var p P; q := idp(p); rt.Sink1(q); rt.Sink1(rt.Source1()) }`,
 	// whole-program escape fixpoint: a summary that grows in a second round, used from two sibling blocks of a
 	// mutually recursive caller
 	"esc.recTwoSites": `type ET struct{ v string }
